@@ -49,6 +49,7 @@ func init() {
 		Harnesses: func(tier string) []HarnessSpec {
 			return []HarnessSpec{
 				{Pkg: "internal/validator", Fn: "VerifC09Equiv", Native: "VerifC09EquivNative", Reach: []string{"compile-failed", "validated-both"}, Bounds: map[string]any{"runs": 2}},
+				{Pkg: "internal/validator", Fn: "VerifC09TwoProfiles", Native: "VerifC09TwoProfilesNative", Reach: []string{"validated"}, Bounds: map[string]any{"profiles": 2, "orders": "B compiled after A | B validated from text after A was compiled | A, B, A compiled"}},
 				{Pkg: "internal/validator", Fn: "VerifC09History", CrossCheck: true, Native: "VerifC09HistoryNative", Reach: []string{"validated-3"}, Bounds: map[string]any{"history_length": 3}},
 				{Pkg: "internal/validator", Fn: "VerifC09IndexFrame", Native: "VerifC09IndexFrameNative", Reach: []string{"indexed"}, Bounds: map[string]any{"graph_shapes": "the catalogue of C17 (type forms x lexical / source-information layouts)"}},
 			}
@@ -95,10 +96,10 @@ func init() {
 				}
 			}
 			return []HarnessSpec{
-				{Pkg: "internal/parser/path", Fn: "VerifC16Parse4", Reach: []string{"accepted", "accepted-sentence", "rejected"}, Bounds: map[string]any{"length": "1..4 ASCII bytes", "paren_depth": 3}},
 				{Pkg: "internal/parser/path", Fn: "VerifC16Variants3", Reach: []string{"sentence"}, Bounds: map[string]any{"length": "1..3 ASCII bytes"}},
 				{Pkg: "internal/parser/path", Fn: "VerifC16Edits", CrossCheck: true, Reach: []string{"accepted", "rejected"}, Bounds: map[string]any{"sentences": 10, "edits": "insert/replace one symbolic byte at any position, delete one byte, append two symbolic bytes"}},
 				{Pkg: "internal/parser/path", Fn: "VerifC16Compose2", Reach: []string{"accepted", "rejected"}, Bounds: map[string]any{"composition": "2 predicates from {a.b, c.d} (repeats included), one symbolic operator byte from {| / blank ^ ( )} between them, an optional symbolic modifier byte from {^ blank * ) |} after each"}},
+				{Pkg: "internal/parser/path", Fn: "VerifC16Parse4", Reach: []string{"accepted", "accepted-sentence", "rejected"}, Bounds: map[string]any{"length": "1..4 ASCII bytes", "paren_depth": 3}},
 			}
 		},
 		Assumptions: []string{
@@ -276,7 +277,8 @@ func init() {
 		ID: "C02", Level: "translation_validation", Extra: regoC02,
 		Rule: "one program = one path expression in one generator mode; its generated path rule (real generator output, compiled by the linked OPA) is evaluated symbolically from every source node of a symbolic graph and compared, member by member, with the relational denotation of the expression; z3 decides whether any graph in the scope distinguishes them",
 		Harnesses: func(tier string) []HarnessSpec {
-			return []HarnessSpec{{Pkg: "internal/generator", Fn: "VerifC07PathBindings", Reach: []string{"traversed"}, Bounds: map[string]any{"path_shapes": 21}}}
+			return []HarnessSpec{{Pkg: "internal/generator", Fn: "VerifC07PathBindings", Reach: []string{"traversed"}, Bounds: map[string]any{"path_shapes": 21}},
+				{Pkg: "pkg", Fn: "VerifC02PrefixTableNotShared", Native: "VerifC02PrefixTableNotSharedNative", Reach: []string{"returned"}, Bounds: map[string]any{"entry_points": 4, "profiles": "5 small (valid and failing) + 1 using most of the profile language with declared prefixes (one overriding a built-in prefix)"}}}
 		},
 		Assumptions: []string{
 			"finite scope: N nodes (2 quick / 3 thorough), at most 2 distinct values per (node, predicate) drawn from references to every node, one dangling reference and one literal; larger graphs are outside the bound",
